@@ -185,6 +185,11 @@ pub struct Acq {
     pub lent_key: bool,
     pub body: Vec<BodyOp>,
     pub release: Release,
+    /// rebuilt retrying collections only: before acquiring, go through the collection's `&mut`
+    /// accessor to its child (if the type offers one for reference members) and list the first
+    /// member once more - no safe operation may leave a collection with a repeated lock
+    #[serde(default)]
+    pub mutate: bool,
 }
 
 #[derive(Clone, Copy, PartialEq, Eq, Debug, Serialize, Deserialize)]
